@@ -39,7 +39,7 @@ func runC11(e *emitter, tier string, seed uint64) {
 	}
 	ehs := []*c11EH{nil, {"", 0, "custom error body"}, {"", 400, "bad"}, {"application/problem+json", 503, "{}"}, {"", 0, ""}, {"text/x", 0, "only ct and body"}, {"", 418, ""}}
 	statuses := []int{0, 201, 404, 200}
-	cts := []string{"text/html; charset=utf-8", "application/x-custom"}
+	cts := []string{"text/html; charset=utf-8", "application/x-custom", "text/event-stream", "Text/Event-Stream; charset=utf-8"}
 	run := func(status int, ct string, eh *c11EH, stream bool, chunks []string, fail bool, kind string) {
 		ehS := "-"
 		if eh != nil {
@@ -83,6 +83,13 @@ func runC11(e *emitter, tier string, seed uint64) {
 		}
 		if stream {
 			opts = append(opts, templ.WithStreaming())
+		}
+		// what happened before must not matter: a fragment conversion that failed half way (it shares the buffer pool)
+		if len(key)%3 == 0 {
+			_, _ = templ.ToGoHTML(context.Background(), templ.ComponentFunc(func(ctx context.Context, w io.Writer) error {
+				io.WriteString(w, "<li>draft that failed</li>")
+				return errors.New("conversion failed")
+			}))
 		}
 		rec := httptest.NewRecorder()
 		templ.Handler(comp, opts...).ServeHTTP(rec, httptest.NewRequest("GET", "/", nil))
